@@ -447,10 +447,7 @@ func (x *Exec) canInline(fr *Frame, callee *ssa.Function) bool {
 	loops := findLoops(callee)
 	for _, li := range loops {
 		if fc == nil || fc.Loops[li.Ordinal] == nil {
-			// (in partial mode a loop without an invariant gets the trivial one)
-			if fr.top.fc == nil || !fr.top.fc.Partial {
-				return false
-			}
+			return false
 		}
 	}
 	for _, b := range callee.Blocks {
